@@ -15,7 +15,7 @@ use std::rc::Rc;
 
 const SIGMA: [&str; 14] = ["a", " ", "\"", "#", "\\", "$", "{", "}", "%", "\n", "\r", "=", "\t", "é"];
 const SPECIAL: [&str; 18] = ["${v}", "%{v}", "\\${v}", "${w}", "a b", "\"a b\"", "a  b", "x=y", "and", "or", "not", "(", ")", "true", "false", "al", "cap", "p"];
-const WRAPPERS: [&str; 17] = ["direct", "if", "elseif", "while", "not", "alias-stored", "alias-passed", "function", "alias-of-not", "alias-of-not-stored", "alias-stored-then-refused-redefinition", "if-not", "while-not", "not-not", "if-alias", "alias-of-alias", "elseif-after-failed-elseif"];
+const WRAPPERS: [&str; 20] = ["direct", "if", "elseif", "while", "not", "alias-stored", "alias-passed", "function", "alias-of-not", "alias-of-not-stored", "alias-stored-then-refused-redefinition", "if-not", "while-not", "not-not", "if-alias", "alias-of-alias", "elseif-after-failed-elseif", "alias-chain-inner-default", "alias-chain-both-defaults", "alias-chain-three-levels"];
 
 struct Rig {
     ctx: Context,
@@ -109,6 +109,32 @@ impl Rig {
             14 => ("", format!("alias al cap\nif al {}\nend", args)),
             15 => ("", format!("alias a1 cap\nalias a2 a1\na2 {}", args)),
             16 => ("", format!("if false\nelseif equals a b\nelseif cap {}\nend", args)),
+            // chains of aliases that carry some of the arguments themselves: what an alias stores comes
+            // right behind its command word, in front of what the invocation adds
+            17 => (
+                "",
+                if pos == 0 {
+                    "alias a1 cap ${v}\nalias a2 a1\na2 z".to_string()
+                } else {
+                    "alias a1 cap z\nalias a2 a1\na2 ${v}".to_string()
+                },
+            ),
+            18 => (
+                "",
+                if pos == 0 {
+                    "alias a1 cap ${v}\nalias a2 a1 z\na2".to_string()
+                } else {
+                    "alias a1 cap z\nalias a2 a1 ${v}\na2".to_string()
+                },
+            ),
+            19 => (
+                "",
+                if pos == 0 {
+                    "alias a1 cap\nalias a2 a1 ${v}\nalias a3 a2\na3 z".to_string()
+                } else {
+                    "alias a1 cap\nalias a2 a1 z\nalias a3 a2\na3 ${v}".to_string()
+                },
+            ),
             _ => ("fn p\ncap ${1} ${2}\nreturn true\nend\n", format!("if p {}\nend", args)),
         };
         if place == 0 {
@@ -548,7 +574,7 @@ pub fn crash_sig(case: &Value, kind: &str) -> String {
     format!("{}:{}:{}", kind, case["wrapper"].as_str().unwrap_or("?"), class_of(case["value"].as_str().unwrap_or("")))
 }
 
-pub const RULE: &str = "values: every string up to the length bound over {a SP \" # \\\\ $ { } % LF CR = TAB e-acute} plus 8 special values (${v}, %{v}, \\\\${v}, ${w}, 'a b', '\"a b\"', 'a  b', x=y), held in a variable and written as ${v} in first or second argument position of a capture command invoked directly, as the condition of if / elseif / while, under not, through an alias that stores the value, through an alias that is passed the value, through a user function used as predicate, through aliases whose target is `not <predicate>` (value passed or stored), and through an alias that stores the value and whose name a second alias definition then tries to take (refused); also wrappers inside wrappers (if not, while not, not not, an alias in condition position, an alias of an alias, an elseif behind a failed elseif); every wrapping line both at the top level of the script and inside the body of a user function that was itself called with two arguments. Branch family: for six predicate bodies (returning true / its argument / false after a truthy command output, falling off the end or returning bare after a command that produced an output) x plain and <scope> x 7 values the branch taken by if / elseif / while / not / an alias is the one the direct call's output dictates. Aftermath family: behind `if / elseif / while / not <user function> ${v} z` (plain and <scope> function, at top level and inside a called function, 6 values) a probe receives ${1} ${2} ${v} and a caller variable exactly as it does behind the direct call. Scale cases: 302 (thorough 3002) arguments, the first and last a value of 5000 (thorough 100000) characters of such text, through the direct call and seven wrappers. Oracle: the arguments received through the wrapper equal those received by the direct call. A failing case is classified by whether the received arguments equal what re-serialising the values into a line and parsing/binding it again yields (the recorded defect, one signature per input class) or not (a new violation). Non-trivial: the value contains a character other than plain letters. Branch families: 11 predicate bodies (5 of them with blocks of their own: inner if returning, falling through, if/else, a loop left by return, calls of library scripts) x 7 values x plain / scoped x 11 wrapping shapes, 6 of which go on behind the wrapped call (else, elseif, a second elseif, inside a while): exactly the branch decided by the direct call is taken, and the script reaches its last line";
+pub const RULE: &str = "values: every string up to the length bound over {a SP \" # \\\\ $ { } % LF CR = TAB e-acute} plus 8 special values (${v}, %{v}, \\\\${v}, ${w}, 'a b', '\"a b\"', 'a  b', x=y), held in a variable and written as ${v} in first or second argument position of a capture command invoked directly, as the condition of if / elseif / while, under not, through an alias that stores the value, through an alias that is passed the value, through a user function used as predicate, through aliases whose target is `not <predicate>` (value passed or stored), and through an alias that stores the value and whose name a second alias definition then tries to take (refused); also wrappers inside wrappers (if not, while not, not not, an alias in condition position, an alias of an alias, an elseif behind a failed elseif); every wrapping line both at the top level of the script and inside the body of a user function that was itself called with two arguments. Branch family: for six predicate bodies (returning true / its argument / false after a truthy command output, falling off the end or returning bare after a command that produced an output) x plain and <scope> x 7 values the branch taken by if / elseif / while / not / an alias is the one the direct call's output dictates. Aftermath family: behind `if / elseif / while / not <user function> ${v} z` (plain and <scope> function, at top level and inside a called function, 6 values) a probe receives ${1} ${2} ${v} and a caller variable exactly as it does behind the direct call. Scale cases: 302 (thorough 3002) arguments, the first and last a value of 5000 (thorough 100000) characters of such text, through the direct call and seven wrappers. Oracle: the arguments received through the wrapper equal those received by the direct call. A failing case is classified by whether the received arguments equal what re-serialising the values into a line and parsing/binding it again yields (the recorded defect, one signature per input class) or not (a new violation). Non-trivial: the value contains a character other than plain letters. Branch families: 11 predicate bodies (5 of them with blocks of their own: inner if returning, falling through, if/else, a loop left by return, calls of library scripts) x 7 values x plain / scoped x 11 wrapping shapes, 6 of which go on behind the wrapped call (else, elseif, a second elseif, inside a while): exactly the branch decided by the direct call is taken, and the script reaches its last line. Three more wrappers: chains of aliases that store part of the arguments themselves (inner, both, three levels)";
 pub const ASSUMPTIONS: &[&str] = &["the capture command returns true on its first call and false afterwards (so a while loop ends)", "classification of known findings uses the real parser and binder on a transcription of the line building in utils/eval.rs"];
 pub const EXHAUSTIVE: bool = true;
 pub const WALL_CAP_S: (u64, u64) = (55, 1500);
